@@ -1,0 +1,123 @@
+//go:build verif
+
+// Contracts for the deductive verification in /verif (govc): TLS session tickets
+// (ticket.go, resumption gates of handshake_server*.go), property C31. Comment-only file.
+
+package tls
+
+// ---------------------------------------------------------------- ticket.go
+//
+// Ticket layout (comment in RFC 5077 4, recommended format): key_name (16) || IV (16) ||
+// AES-CTR ciphertext || HMAC-SHA256 tag (32); the MAC covers everything before the tag.
+// AES and HMAC are uninterpreted; what is proved is the wiring.
+
+// Bound variables take precedence over pred parameters in govc, so the parameters carry names
+// (cn, kx, tk, jx) that no quantifier uses.
+// key kx of connection cn carries the key name found at the start of ticket tk (the 16 byte comparison is
+// unrolled: the quantified form costs the solvers a factor of ten)
+//@ pred tkB(cn, kx, tk, jx) = (&(&cn.ticketKeys[kx]).keyName)[jx] == tk[jx]
+//@ pred tkMatch(cn, kx, tk) = tkB(cn, kx, tk, 0) && tkB(cn, kx, tk, 1) && tkB(cn, kx, tk, 2) && tkB(cn, kx, tk, 3) && tkB(cn, kx, tk, 4) && tkB(cn, kx, tk, 5) && tkB(cn, kx, tk, 6) && tkB(cn, kx, tk, 7) && tkB(cn, kx, tk, 8) && tkB(cn, kx, tk, 9) && tkB(cn, kx, tk, 10) && tkB(cn, kx, tk, 11) && tkB(cn, kx, tk, 12) && tkB(cn, kx, tk, 13) && tkB(cn, kx, tk, 14) && tkB(cn, kx, tk, 15)
+// kx is the FIRST ticket key whose name matches
+//@ pred tkFirst(cn, kx, tk) = 0 <= kx && kx < len(cn.ticketKeys) && tkMatch(cn, kx, tk) && forall(i, 0, kx, !tkMatch(cn, i, tk), &cn.ticketKeys[i])
+
+//@ func (*Conn).decryptTicket
+//@   requires c != nil
+//@   loop 1 invariant 0 <= it && forall(i, 0, it, !old(tkMatch(c, i, encrypted)), old(&c.ticketKeys[i]))
+//@   at call hmac.New assert 0 <= keyIndex && keyIndex < len(c.ticketKeys) && tkMatch(c, keyIndex, encrypted) && forall(i, 0, keyIndex, !tkMatch(c, i, encrypted), &c.ticketKeys[i]) && len(arg1) == 16 && &arg1[0] == &(&c.ticketKeys[keyIndex].hmacKey)[0]
+//@   at call Write assert same(arg0, mac) && samedata(arg1, encrypted[:len(encrypted)-32])
+//@   at call Sum assert same(arg0, mac) && arg1 == nil
+//@   at call ConstantTimeCompare assert same(arg0, encrypted[len(encrypted)-32:]) && same(arg1, expected)
+//@   at call NewCipher assert eq(macBytes, expected) && len(arg0) == 16 && &arg0[0] == &(&c.ticketKeys[keyIndex].aesKey)[0]
+//@   at call NewCTR assert same(arg0, block) && same(arg1, encrypted[16:32])
+//@   at call XORKeyStream assert eq(macBytes, expected) && same(arg1, plaintext) && same(arg2, encrypted[32:len(encrypted)-32])
+//@   ensures  [short] len(encrypted) < 64 ==> plaintext == nil
+//@   ensures  [nokey] forall(i, 0, old(len(c.ticketKeys)), !old(tkMatch(c, i, encrypted)), old(&c.ticketKeys[i])) ==> plaintext == nil
+//@   ensures  [key] plaintext != nil ==> !forall(k, 0, old(len(c.ticketKeys)), !(old(tkFirst(c, k, encrypted)) && usedOldKey == (k > 0)), old(&c.ticketKeys[k]))
+//@   ensures  [fail] plaintext == nil ==> !usedOldKey
+//@   ensures  [len] plaintext != nil ==> len(plaintext) == len(encrypted) - 64 && fresh(plaintext)
+//@   modifies nothing
+//@   terminates
+
+// Config.Rand doc: "Rand provides the source of entropy for nonces and RSA blinding. If Rand
+// is nil, TLS uses the cryptographic random reader in package crypto/rand."
+//@ func (*Config).rand
+//@   requires c != nil
+//@   ensures  c.Rand != nil ==> same(result, c.Rand)
+//@   ensures  c.Rand == nil ==> same(result, rand.Reader)
+//@   modifies nothing
+//@   terminates
+
+// byte jx of the 16-byte key array ka (pointer to array) equals byte jx of slice sl
+//@ pred tkKB(ka, sl, jx) = ka[jx] == sl[jx]
+//@ pred tkKeyIs(ka, sl) = len(sl) == 16 && tkKB(ka, sl, 0) && tkKB(ka, sl, 1) && tkKB(ka, sl, 2) && tkKB(ka, sl, 3) && tkKB(ka, sl, 4) && tkKB(ka, sl, 5) && tkKB(ka, sl, 6) && tkKB(ka, sl, 7) && tkKB(ka, sl, 8) && tkKB(ka, sl, 9) && tkKB(ka, sl, 10) && tkKB(ka, sl, 11) && tkKB(ka, sl, 12) && tkKB(ka, sl, 13) && tkKB(ka, sl, 14) && tkKB(ka, sl, 15)
+
+// A new ticket is sealed under ticketKeys[0] ("The first key will be used when creating new
+// tickets", SetSessionTicketKeys): name of key 0, fresh random IV, AES-CTR of the state under
+// aesKey of key 0 with that IV, HMAC under hmacKey of key 0 over everything before the tag,
+// the tag appended in place. Without ticket keys an error is returned.
+//@ func (*Conn).encryptTicket
+//@   requires c != nil && c.config != nil && (c.config.Rand != nil || rand.Reader != nil)
+//@   requires len(state) <= 1<<32
+//@   at call ReadFull assert same(arg1, encrypted[16:32])
+//@   at call NewCipher assert tkKeyIs(&c.ticketKeys[0].aesKey, arg0)
+//@   at call NewCTR assert same(arg0, block) && same(arg1, encrypted[16:32])
+//@   at call XORKeyStream assert same(arg1, encrypted[32:]) && same(arg2, state)
+//@   at call hmac.New assert tkKeyIs(&c.ticketKeys[0].hmacKey, arg1)
+//@   at call Write assert same(arg0, mac) && samedata(arg1, encrypted[:len(encrypted)-32]) && tkMatch(c, 0, encrypted)
+//@   at call Sum assert same(arg0, mac) && samebase(arg1, encrypted) && offset(arg1) == len(encrypted) - 32 && len(arg1) == 0 && cap(arg1) == 32
+//@   ensures  [nokeys] len(c.ticketKeys) == 0 ==> result0 == nil && result1 != nil
+//@   ensures  [err] result1 != nil ==> result0 == nil
+//@   ensures  [layout] result1 == nil ==> len(result0) == 16 + 16 + len(state) + 32 && fresh(result0)
+//@   ensures  [name] result1 == nil ==> len(c.ticketKeys) >= 1 && tkMatch(c, 0, result0)
+//@   modifies nothing
+//@   terminates
+
+// ---------------------------------------------------------------- common.go: ticket keys
+
+// Config.Time doc: "Time returns the current time as the number of seconds since the epoch.
+// If Time is nil, TLS uses time.Now." The callback is opaque (govc has no model for calls of
+// function values): it is ASSUMED not to panic and to leave existing objects alone
+// (assume_pure, listed in the trusted base).
+//@ func (*Config).time
+//@   requires c != nil
+//@   assume_pure funcvalue
+//@   modifies nothing
+
+// "ticketKeyFromBytes converts from the external representation of a session ticket key to a
+// ticketKey. Externally, session ticket keys are 32 random bytes and this function expands
+// that into sufficient name and key material": key name, AES key and HMAC key are three
+// disjoint 16-byte parts of the SHA-512 digest of the external key (the digest is a local
+// variable, so this is asserted where it can be named: at the call of c.time(), the last
+// statement before the return).
+//@ func (*Config).ticketKeyFromBytes
+//@   requires c != nil
+//@   at call time assert forall(j, 0, 16, key.keyName[j] == hashed[j] && key.aesKey[j] == hashed[16+j] && key.hmacKey[j] == hashed[32+j])
+//@   modifies nothing
+
+// "SetSessionTicketKeys updates the session ticket keys for a server. [...] The function will
+// panic if keys is empty." One internal key per external key, in a fresh list; nothing but
+// the key list of the configuration changes.
+//@ func (*Config).SetSessionTicketKeys
+//@   requires c != nil
+//@   panics_when len(keys) == 0
+//@   loop 1 invariant 0 <= it
+//@   ensures  len(c.sessionTicketKeys) == len(keys) && fresh(c.sessionTicketKeys)
+//@   modifies c.sessionTicketKeys
+
+// ---------------------------------------------------------------- resumption gates: helpers
+
+// ClientAuthType doc: RequireAnyClientCert / RequireAndVerifyClientCert are the two policies
+// under which "a client certificate is required during the handshake".
+//@ func requiresClientCert
+//@   ensures  result <==> (c == RequireAnyClientCert || c == RequireAndVerifyClientCert)
+//@   modifies nothing
+//@   terminates
+
+// A suite is usable by this server iff its key exchange fits the certificate (ECDHE needs
+// curve support plus a signing key of the suite's kind, static RSA needs a decryption key)
+// and it is not a TLS 1.2-only suite on an older connection.
+//@ func (*serverHandshakeState).cipherSuiteOk
+//@   requires hs != nil && hs.c != nil && c != nil
+//@   ensures  result <==> ((c.flags&suiteECDHE != 0 ==> hs.ecdheOk && ite(c.flags&suiteECSign != 0, hs.ecSignOk, hs.rsaSignOk)) && (c.flags&suiteECDHE == 0 ==> hs.rsaDecryptOk) && !(hs.c.vers < VersionTLS12 && c.flags&suiteTLS12 != 0))
+//@   modifies nothing
+//@   terminates
